@@ -22,6 +22,7 @@ EXTENDS NRat, FiniteSets, TLC, Json
 
 CONSTANTS Types,      \* subset of {"dual", "hyper", "quat", "dquat", "dcmplx"}
           NRand,      \* salted elements per type besides the signed basis elements
+          Shard, NShards,   \* only first operands with index i % NShards = Shard are enumerated
           Seed
 
 VARIABLE c
@@ -210,8 +211,8 @@ ASSUME /\ AMul("dual", Basis("dual", 2), Basis("dual", 2)) = ZeroOf("dual")
 
 (****************************** state space ********************************)
 Init == \E T \in Types :
-          \/ c \in [t : {T}, op : BinaryOps, i : 0..NE(T)-1, j : 0..NE(T)-1]
-          \/ c \in {cc \in [t : {T}, op : UnaryOps(T), i : 0..NE(T)-1, j : 0..4] :
+          \/ c \in [t : {T}, op : BinaryOps, i : {i \in 0..NE(T)-1 : i % NShards = Shard}, j : 0..NE(T)-1]
+          \/ c \in {cc \in [t : {T}, op : UnaryOps(T), i : {i \in 0..NE(T)-1 : i % NShards = Shard}, j : 0..4] :
                       /\ cc.op \in {"Conj", "ConjDual", "ConjQuat", "Inv", "Abs", "AbsQ"} => cc.j = 0
                       /\ cc.op = "AbsQ" => IsSquare(Norm2(Lift(Elem(T, cc.i)))[1])}
 Next == UNCHANGED c
